@@ -4,10 +4,12 @@ import (
 	"bytes"
 	"encoding/json"
 	"fmt"
+	"net/http"
 	"os"
 	"os/exec"
 	"path/filepath"
 	"strings"
+	"time"
 
 	"github.com/go-shiori/dom"
 	distiller "github.com/markusmobius/go-domdistiller"
@@ -71,12 +73,15 @@ var c11Atoms = append(append([]ora.Atom{}, c13Atoms...),
 	ora.Atom{Name: "VMq", Gen: func(t *ora.Tok) string {
 		return "<iframe src=\"http://player.vimeo.com/video/12345?color=ff&amp;title=0&amp;byline=0\"></iframe>"
 	}},
+	ora.Atom{Name: "SCH2", Gen: func(t *ora.Tok) string {
+		return "<div itemscope itemtype=\"http://schema.org/Article\"><span itemprop=\"headline\">" + t.W(3) + "</span><img itemprop=\"image\" src=\"http://example.com/img/ph.gif\" data-src=\"http://example.com/img/" + t.U() + ".jpg\" width=\"400\" height=\"300\"></div>"
+	}},
 	ora.Atom{Name: "LBL2", Gen: func(t *ora.Tok) string {
 		return "<div class=\"comment\"><h2>" + t.W(3) + "</h2><ul><li><h3>" + t.W(2) + "</h3>" + t.W(12) + "</li><li>" + t.W(20) + "</li></ul></div>"
 	}},
 )
 
-var c11Alphabet = []string{"Pc", "Pb", "H", "UL3", "TBLd", "IMG", "FIG", "YT", "YTq", "VMq", "TW", "PAGER", "PAGER2", "LBL", "LBL2", "OG", "INL"}
+var c11Alphabet = []string{"Pc", "Pb", "H", "UL3", "TBLd", "IMG", "FIG", "YT", "YTq", "VMq", "TW", "PAGER", "PAGER2", "PAGER3", "LBL", "LBL2", "OG", "INL", "FALLB"}
 
 func c11Enumerate(tier string, emit func(*eng.Case)) {
 	thorough := tier == "thorough"
@@ -133,8 +138,15 @@ func c11Enumerate(tier string, emit func(*eng.Case)) {
 		for _, x := range seq {
 			s = append(s, fmt.Sprint(x))
 		}
-		emit(&eng.Case{Kind: "history", P: map[string]string{"seq": strings.Join(s, ","), "doc": "history " + strings.Join(s, ",")}})
+		emit(&eng.Case{Kind: "history", P: map[string]string{"menu": "main", "seq": strings.Join(s, ","), "doc": "history " + strings.Join(s, ",")}})
 	})
+	// (2b) ordered pairs over the URL-resolution menu
+	nu := len(c11MenuNamed("url"))
+	for i := 0; i < nu; i++ {
+		for j := 0; j < nu; j++ {
+			emit(&eng.Case{Kind: "history", P: map[string]string{"menu": "url", "seq": fmt.Sprintf("%d,%d", i, j), "doc": fmt.Sprintf("url-menu history %d,%d", i, j)}})
+		}
+	}
 	// (3) entry points agree
 	lb := 2
 	if thorough {
@@ -166,13 +178,33 @@ type c11Call struct {
 	entry string // apply, reader, file
 }
 
-func c11Menu() []c11Call {
+func c11Menu() []c11Call { return c11MenuNamed("main") }
+
+// c11MenuNamed returns a menu of calls. "main": varied documents, options and entry points
+// (including a page that starts with media, nil options and ApplyForURL with nil options).
+// "url": one document full of relative references distilled under page URLs that share hosts,
+// directories and string prefixes - calls that would collide in any process-wide URL cache.
+func c11MenuNamed(name string) []c11Call {
 	atoms := c11Atoms
 	s := ora.StdSkeletons(atoms)
 	d1 := s[0].Render(atoms)
+	if name == "url" {
+		t := &ora.Tok{}
+		doc := "<html><head><title>" + ora.DefaultTitle + "</title></head><body><div class=\"main\"><p>" + t.W(20) + " <a href=\"3\">" + t.W(1) + "</a> <a href=\"23\">" + t.W(1) + "</a> <a href=\"2/3\">" + t.W(1) + "</a> <a href=\"?page=3\">" + t.W(1) + "</a></p>" +
+			"<img src=\"img/a.jpg\" srcset=\"img/a-2x.jpg 2x\" width=\"400\" height=\"300\"><p>" + t.W(22) + "</p><iframe src=\"/embed/abc123?rel=0\"></iframe><p>" + t.W(21) + "</p>" +
+			"<video src=\"v/a.mp4\" poster=\"v/a.jpg\"></video><p>" + t.W(23) + "</p></div><div class=\"pagination\"><a href=\"1\">1</a> 2 <a href=\"3\">3</a> <a href=\"3\">Next</a> <a href=\"1\">Prev</a></div></body></html>"
+		var m []c11Call
+		for _, u := range []string{"http://example.com/articles/", "http://example.com/articles/2", "http://example.com/articles/2/", "http://example.com/book/chapter-1/page.html",
+			"http://example.com/book/chapter-2/page.html", "http://www.youtube.com/watch/x", "http://evil.example/watch/x"} {
+			m = append(m, c11Call{doc, u, 0, 0, "apply"}, c11Call{doc, u, 1, 0, "reader"})
+		}
+		return m
+	}
 	m2 := &ora.DocModel{Skel: "S2", Top: append(append([]int{}, s[1].Top...), ora.AtomIndex(atoms, "PAGER")...), ArtC: append(append([]int{}, s[1].ArtC...), ora.AtomIndex(atoms, "TBLd", "FIG", "YTq")...)}
 	d2 := m2.Render(atoms)
 	d3 := c11PagerDoc([]int{0, 0, 1, 1, 1}, 4)
+	m4 := &ora.DocModel{Skel: "S1", Top: append(ora.AtomIndex(atoms, "VID", "TBLd", "IMG"), s[0].Top...), ArtC: s[0].ArtC}
+	d4 := m4.Render(atoms)
 	return []c11Call{
 		{d1, "", 0, 0, "apply"},
 		{d2, c13URL, 0, 0, "apply"},
@@ -180,6 +212,9 @@ func c11Menu() []c11Call {
 		{d3, "http://example.com/story?p=4", 1, 0, "apply"},
 		{d3, "http://example.com/story?page=4", 0, 8, "file"},
 		{d1, "http://example.com/x", 1, 0, "reader"},
+		{d4, "", 0, 0, "apply-nil"},
+		{d2, "http://example.com/fetched/story?page=2", 0, 0, "url-nil"},
+		{d1, "", 0, 0, "reader-nil"},
 	}
 }
 
@@ -189,6 +224,19 @@ func c11DoCall(cl c11Call, tmpdir string) (string, error) {
 	var err error
 	var pi *eng.PanicInfo
 	switch cl.entry {
+	case "apply-nil":
+		doc, perr := dom.Parse(strings.NewReader(cl.html))
+		if perr != nil {
+			return "", perr
+		}
+		pi = eng.Protect(func() { res, err = distiller.Apply(doc, nil) })
+	case "reader-nil":
+		pi = eng.Protect(func() { res, err = distiller.ApplyForReader(strings.NewReader(cl.html), nil) })
+	case "url-nil":
+		old := http.DefaultTransport
+		http.DefaultTransport = &stubTransport{body: cl.html}
+		pi = eng.Protect(func() { res, err = distiller.ApplyForURL(cl.url, 5*time.Second, nil) })
+		http.DefaultTransport = old
 	case "apply":
 		doc, perr := dom.Parse(strings.NewReader(cl.html))
 		if perr != nil {
@@ -215,8 +263,12 @@ func c11DoCall(cl c11Call, tmpdir string) (string, error) {
 
 // HistoryMain is the body of the `-history` sub-mode: it performs the calls of the history in a
 // fresh process and prints the canonical result of each call plus the package-variable writes seen.
-func HistoryMain(seq string) int {
-	menu := c11Menu()
+func HistoryMain(arg string) int {
+	name, seq := "main", arg
+	if i := strings.Index(arg, ":"); i >= 0 {
+		name, seq = arg[:i], arg[i+1:]
+	}
+	menu := c11MenuNamed(name)
 	tmp, err := os.MkdirTemp("", "c11h-")
 	if err != nil {
 		fmt.Fprintln(os.Stderr, err)
@@ -247,8 +299,8 @@ func HistoryMain(seq string) int {
 	return 0
 }
 
-func c11RunHistory(seq string) ([]string, map[string]int, error) {
-	cmd := exec.Command(os.Args[0], "-sub", "history", "-arg", seq)
+func c11RunHistory(menu, seq string) ([]string, map[string]int, error) {
+	cmd := exec.Command(os.Args[0], "-sub", "history", "-arg", menu+":"+seq)
 	var so, se bytes.Buffer
 	cmd.Stdout, cmd.Stderr = &so, &se
 	if err := cmd.Run(); err != nil {
@@ -264,7 +316,7 @@ func c11RunHistory(seq string) ([]string, map[string]int, error) {
 	return r.Results, r.Writes, nil
 }
 
-var c11Solo = map[int]string{}
+var c11Solo = map[string]string{}
 
 // ---- check -----------------------------------------------------------------------------------
 
@@ -346,7 +398,11 @@ func c11Check(c *eng.Case) *eng.Outcome {
 		o.Class = fmt.Sprintf("maporder multi-key-maps=%v", multi)
 	case "history":
 		seq := c.Get("seq")
-		got, writes, err := c11RunHistory(seq)
+		menu := c.Get("menu")
+		if menu == "" {
+			menu = "main"
+		}
+		got, writes, err := c11RunHistory(menu, seq)
 		if err != nil {
 			o.Skipped = "history process: " + err.Error()
 			return o
@@ -356,15 +412,15 @@ func c11Check(c *eng.Case) *eng.Outcome {
 		for j, s := range idx {
 			var i int
 			fmt.Sscan(s, &i)
-			solo, ok := c11Solo[i]
+			solo, ok := c11Solo[menu+":"+s]
 			if !ok {
-				r, _, err := c11RunHistory(s)
+				r, _, err := c11RunHistory(menu, s)
 				if err != nil || len(r) != 1 {
 					o.Skipped = "solo process failed"
 					return o
 				}
 				solo = r[0]
-				c11Solo[i] = solo
+				c11Solo[menu+":"+s] = solo
 				o.Execs++
 			}
 			if got[j] != solo {
@@ -425,8 +481,8 @@ func init() {
 	eng.Register(&eng.Prop{
 		ID:        "C11",
 		DesignRef: "§5 C11",
-		Rule: "(1) map orders: for each corpus document - pagers of 6 pages whose 5 links each follow one of 3 (quick) / 4 (thorough) URL patterns, current page 2|4 / 1..6, both algorithms; S1,S2 with <= 1 / <= 2 insertions over 17 atoms (embeds with several query parameters, multi-label blocks, schema.org item, pagers) x flags {none, all} x both algorithms - a DFS explores every execution with <= 1 (quick) / <= 2 (thorough) non-default iteration orders at the range-over-map sites (all permutations for <= 4 keys; descending, rotations, adjacent transpositions above); the canonical result (all fields but TimingInfo) must be identical. " +
-			"(2) histories: every sequence of <= 3 calls from a menu of 6 (document, options, entry point) runs in a fresh process; each call must equal the same call alone in a fresh process; package-variable writes after init are reported. (3) entry points: ApplyForReader == ApplyForFile == Apply(dom.Parse) on all byte-token strings of <= 2 / <= 3 tokens and the corpus. " +
+		Rule: "(1) map orders: for each corpus document - pagers of 6 pages whose 5 links each follow one of 3 (quick) / 4 (thorough) URL patterns, current page 2|4 / 1..6, both algorithms; S1,S2 with <= 1 / <= 2 insertions over 19 atoms (embeds with several query parameters, multi-label blocks, schema.org item, pagers) x flags {none, all} x both algorithms - a DFS explores every execution with <= 1 (quick) / <= 2 (thorough) non-default iteration orders at the range-over-map sites (all permutations for <= 4 keys; descending, rotations, adjacent transpositions above); the canonical result (all fields but TimingInfo) must be identical. " +
+			"(2) histories: every sequence of <= 3 calls from a menu of 9 (document, options, entry point; including a page that starts with media, nil options and ApplyForURL(nil) through a stub transport), and every ordered pair from a 14-entry menu that distils one document full of relative references under page URLs sharing hosts, directories and string prefixes, runs in a fresh process; each call must equal the same call alone in a fresh process; package-variable writes after init are reported. (3) entry points: ApplyForReader == ApplyForFile == Apply(dom.Parse) on all byte-token strings of <= 2 / <= 3 tokens and the corpus. " +
 			"Non-trivial = an execution met a ranged map with >= 2 keys and a non-default order was explored; histories of >= 2 calls; inputs that parse.",
 		Enumerate: c11Enumerate,
 		Check:     c11Check,
